@@ -30,7 +30,10 @@
 
    Hypotheses actually needed: 2 and 4 need only the length law `open_len_ok` (field open_len of prim_laws),
    2 needs `0 < limit` (not `limit <= 65535`), the nonce of a0 = m0 generator steps after inc_init and
-   m0 + (number of units) < 2^96.  3 needs prim_laws (open_seal, seal_len) and 0 < limit <= 65535. *)
+   m0 + (number of units) < 2^96.  3 needs 0 < limit <= 65535 and `laws_on honest_seals`: seal_len, open_len and
+   open_seal RESTRICTED to what the honest sender sealed.  (It used to assume `prim_laws P`, whose open_seal -- for
+   EVERY plaintext -- is jointly unsatisfiable with forge_free over a finite table, which made 3 vacuous; repaired.
+   TamperExamples.ideal_laws / ideal_tampered_unit_rejected show that all hypotheses of 3 hold together.) *)
 From Coq Require Import List NArith ZArith Lia Arith Bool ZifyBool ZifyN ZifyNat.
 From Octo Require Import Base.Bytes Crypto.Prims Model.NonceGen Model.SsChunk Lib.Framed Lib.Canon
                          Proofs.NonceFacts Proofs.SsChunkRoundtrip Proofs.SsChunkCanon.
@@ -253,16 +256,47 @@ Section SsChunkTamper.
       + cbn [flat_map app nth_error] in H. eapply IH; [exact H|exact He].
   Qed.
 
-  Section Laws.
-    Hypothesis HL : prim_laws P.
+  (* what an authenticator seals over a list of plaintexts: (cipher, key, nonce, plaintext) *)
+  Definition seals_of (a : auth) (pts : list bytes) : list (N * bytes * bytes * bytes) :=
+    map (fun u : bytes * bytes * bytes => (au_cipher a, au_key a, fst (fst u), snd (fst u))) (honest_units a pts).
+  Lemma seals_of_cons a m r :
+    seals_of a (m :: r) = (au_cipher a, au_key a, inc (au_nonce a), m) :: seals_of (auth_step a) r.
+  Proof. reflexivity. Qed.
+  Lemma seals_of_firstn_incl : forall pts j a, incl (seals_of a (firstn j pts)) (seals_of a pts).
+  Proof.
+    induction pts as [|m r IH]; intros j a.
+    - rewrite firstn_nil. apply incl_refl.
+    - destruct j as [|j]; [intros u []|]. cbn [firstn]. rewrite !seals_of_cons.
+      intros u [<-|Hu]; [left; reflexivity|right; exact (IH j (auth_step a) u Hu)].
+  Qed.
 
-    Lemma crun_step_len a v rest : v < 65536 ->
+  (* The laws of the AEAD used by the tamper theorems: the fields seal_len / open_len of Crypto.Prims.prim_laws, and
+     open_seal RESTRICTED to the seals in Sl (what the honest sender sealed).  `prim_laws P` itself -- open_seal for
+     EVERY plaintext -- can never hold together with forge_free (a FINITE table of honest units): seal any other
+     plaintext, it opens, yet is not in the table; a theorem assuming both would be vacuous.  An ideal AEAD (opens
+     exactly what the honest sender sealed) satisfies laws_on and forge_free together: TamperExamples.ideal_laws,
+     ideal_tampered_unit_rejected. *)
+  Record laws_on (Sl : list (N * bytes * bytes * bytes)) : Prop := {
+    lo_seal_len : forall c k n a m, lenN (p_seal P c k n a m) = lenN m + TAG;
+    lo_open_len : open_len_ok P;
+    lo_open_seal : forall c k n m, In (c, k, n, m) Sl -> p_open P c k n [] (p_seal P c k n [] m) = Some m
+  }.
+  Lemma prim_laws_on Sl : prim_laws P -> laws_on Sl.
+  Proof. intros HL. constructor; [apply (seal_len P HL)|exact (open_len P HL)|intros; apply (open_seal P HL)]. Qed.
+  Lemma laws_on_incl Sl Sl' : incl Sl' Sl -> laws_on Sl -> laws_on Sl'.
+  Proof. intros Hi [H1 H2 H3]. constructor; [exact H1|exact H2|intros c k n m Hin; apply H3, Hi, Hin]. Qed.
+
+  Section Laws.
+    Variable Sl : list (N * bytes * bytes * bytes).
+    Hypothesis HL : laws_on Sl.
+
+    Lemma crun_step_len a v rest : v < 65536 -> In (au_cipher a, au_key a, inc (au_nonce a), put_u16 v) Sl ->
       crun P (a, DLen) (p_seal P (au_cipher a) (au_key a) (inc (au_nonce a)) [] (put_u16 v) ++ rest)
       = crun P (auth_step a, DPay (v + TAG)) rest.
     Proof.
-      intros Hv. set (c1 := p_seal P (au_cipher a) (au_key a) (inc (au_nonce a)) [] (put_u16 v)).
+      intros Hv Hin. set (c1 := p_seal P (au_cipher a) (au_key a) (inc (au_nonce a)) [] (put_u16 v)).
       assert (Hc1 : lenN c1 = SIZE_BYTES).
-      { subst c1. rewrite (seal_len P HL). unfold put_u16. rewrite lenN_put_be. reflexivity. }
+      { subst c1. rewrite (lo_seal_len Sl HL). unfold put_u16. rewrite lenN_put_be. reflexivity. }
       rewrite (crun_unfold _ _ (N.to_nat SIZE_BYTES)).
       2:{ apply need_L. }
       2:{ rewrite app_length. rewrite lenN_spec in Hc1. lia. }
@@ -270,19 +304,19 @@ Section SsChunkTamper.
       change (skipn (N.to_nat SIZE_BYTES) (c1 ++ rest)) with (dropN SIZE_BYTES (c1 ++ rest)).
       rewrite <- Hc1. rewrite takeN_app_exact, dropN_app_exact. rewrite step_L.
       unfold auth_open. cbn beta zeta. cbn [auth_step au_nonce].
-      subst c1. rewrite (open_seal P HL).
+      subst c1. rewrite (lo_open_seal Sl HL) by exact Hin.
       unfold get_u16, put_u16. rewrite <- (app_nil_r (put_be 2 v)).
       rewrite get_be_put_be by (change (256 ^ 2) with 65536; exact Hv).
       apply prepend_nil.
     Qed.
 
-    Lemma crun_step_pay a n pt rest : n = lenN pt + TAG ->
+    Lemma crun_step_pay a n pt rest : n = lenN pt + TAG -> In (au_cipher a, au_key a, inc (au_nonce a), pt) Sl ->
       crun P (a, DPay n) (p_seal P (au_cipher a) (au_key a) (inc (au_nonce a)) [] pt ++ rest)
       = prepend pt (crun P (auth_step a, DLen) rest).
     Proof.
-      intros Hn. set (c2 := p_seal P (au_cipher a) (au_key a) (inc (au_nonce a)) [] pt).
+      intros Hn Hin. set (c2 := p_seal P (au_cipher a) (au_key a) (inc (au_nonce a)) [] pt).
       assert (Hc2 : lenN c2 = n).
-      { subst c2. rewrite (seal_len P HL). symmetry. exact Hn. }
+      { subst c2. rewrite (lo_seal_len Sl HL). symmetry. exact Hn. }
       rewrite (crun_unfold _ _ (N.to_nat n)).
       2:{ apply need_P. unfold TAG in Hn. lia. }
       2:{ rewrite app_length. rewrite lenN_spec in Hc2. lia. }
@@ -290,34 +324,37 @@ Section SsChunkTamper.
       change (skipn (N.to_nat n) (c2 ++ rest)) with (dropN n (c2 ++ rest)).
       rewrite <- Hc2. rewrite takeN_app_exact, dropN_app_exact. rewrite step_P.
       unfold auth_open. cbn beta zeta. cbn [auth_step au_nonce].
-      subst c2. rewrite (open_seal P HL). reflexivity.
+      subst c2. rewrite (lo_open_seal Sl HL) by exact Hin. reflexivity.
     Qed.
 
     (* the first j honest units (j of either parity) are consumed, their payload is released, and the
        decoder is in lockstep: j generator steps, waiting for a length unit or for the announced payload *)
     Lemma run_honest_gen : forall cs, Forall (fun c => lenN c < 65536) cs ->
       forall j a rest, (j <= length (flat_map szu cs))%nat ->
+      incl (seals_of a (firstn j (flat_map szu cs))) Sl ->
       crun P (a, DLen) (fst (seal_all P a (firstn j (flat_map szu cs))) ++ rest)
       = prepend (rel false (firstn j (flat_map szu cs)))
                 (crun P (Nat.iter j auth_step a, st_at (flat_map szu cs) j) rest).
     Proof.
-      induction cs as [|c t IH]; intros HF j a rest Hj.
+      induction cs as [|c t IH]; intros HF j a rest Hj Hincl.
       - cbn [flat_map length] in *. assert (j = 0)%nat as -> by lia.
         cbn [firstn seal_all fst app rel Nat.iter nat_rect]. rewrite prepend_nil. reflexivity.
       - inversion HF as [|c' t' Hc Ht]; subst c' t'.
         cbn [flat_map app length] in *.
         destruct j as [|[|j]].
         + cbn [firstn seal_all fst app rel Nat.iter nat_rect]. rewrite prepend_nil. reflexivity.
-        + cbn [firstn]. rewrite seal_all_cons_fst. cbn [seal_all fst]. rewrite app_nil_r.
-          rewrite crun_step_len by (apply N.mod_lt; lia).
+        + cbn [firstn] in *. rewrite seal_all_cons_fst. cbn [seal_all fst]. rewrite app_nil_r.
+          rewrite seals_of_cons in Hincl.
+          rewrite crun_step_len; [|apply N.mod_lt; lia|apply Hincl; left; reflexivity].
           cbn [rel]. rewrite prepend_nil. rewrite N.mod_small by exact Hc. reflexivity.
-        + cbn [firstn]. rewrite !seal_all_cons_fst. rewrite <- !app_assoc.
-          rewrite crun_step_len by (apply N.mod_lt; lia).
+        + cbn [firstn] in *. rewrite !seal_all_cons_fst. rewrite <- !app_assoc.
+          rewrite !seals_of_cons in Hincl.
+          rewrite crun_step_len; [|apply N.mod_lt; lia|apply Hincl; left; reflexivity].
           change (inc (au_nonce a)) with (au_nonce (auth_step a)).
           change (au_cipher a) with (au_cipher (auth_step a)).
           change (au_key a) with (au_key (auth_step a)).
-          rewrite crun_step_pay by (rewrite N.mod_small by exact Hc; reflexivity).
-          rewrite (IH Ht j (auth_step (auth_step a)) rest) by lia.
+          rewrite crun_step_pay; [|rewrite N.mod_small by exact Hc; reflexivity|apply Hincl; right; left; reflexivity].
+          rewrite (IH Ht j (auth_step (auth_step a)) rest) by (try lia; intros u Hu; apply Hincl; right; right; exact Hu).
           rewrite prepend_prepend. rewrite st_at_SS. cbn [rel].
           rewrite !iter_shift. reflexivity.
     Qed.
@@ -340,6 +377,8 @@ Section SsChunkTamper.
     (* only honest units open under the key of the stream, for ANY nonce and ciphertext presented *)
     Definition forge_free : Prop :=
       forall n ct m, p_open P (au_cipher a0) (au_key a0) n [] ct = Some m -> In (n, m, ct) honest.
+    (* everything the honest sender sealed: (cipher, key, nonce, plaintext); the AEAD is required to be correct on these *)
+    Definition honest_seals : list (N * bytes * bytes * bytes) := seals_of a0 pts.
 
     Lemma honest_trace : map (fun u => (au_key a0, fst (fst u))) honest = seal_trace a0 pts.
     Proof. apply honest_units_trace. Qed.
@@ -523,7 +562,7 @@ Section SsChunkTamper.
        most the chunks whose length unit and payload unit both precede unit j.  As `rest` only has to be at
        least as long as unit j, this holds for every prefix of the attacker's stream that covers unit j:
        the failure happens as soon as unit j is complete, and by nothing_after_failure nothing follows. *)
-    Theorem tampered_unit_rejected : prim_laws P -> forge_free -> 0 < limit -> limit <= 65535 ->
+    Theorem tampered_unit_rejected : laws_on honest_seals -> forge_free -> 0 < limit -> limit <= 65535 ->
       forall j nj mj ctj rest, nth_error honest j = Some (nj, mj, ctj) ->
       (length ctj <= length rest)%nat ->
       (forall m, ~ In (nj, m, firstn (length ctj) rest) honest) ->
@@ -543,10 +582,11 @@ Section SsChunkTamper.
       assert (HFc : Forall (fun c => lenN c < 65536) chunks).
       { eapply Forall_impl; [|apply (enc_chunks_lens (S (length pt)) limit pt Hl0)].
         cbn beta. intros c [_ Hc]. lia. }
-      assert (Hcl : lenN ctj = lenN mj + TAG) by (rewrite Hct; apply (seal_len P HL)).
+      assert (Hcl : lenN ctj = lenN mj + TAG) by (rewrite Hct; apply (lo_seal_len _ HL)).
       assert (Hrun : crun P (a0, DLen) w' = Fail o).
       { subst w'. rewrite prefix_wire_seal. rewrite pts_chunks.
-        rewrite (run_honest_gen HL chunks HFc j a0 rest) by (rewrite <- pts_chunks; lia).
+        rewrite (run_honest_gen honest_seals HL chunks HFc j a0 rest);
+          [|rewrite <- pts_chunks; lia|rewrite <- pts_chunks; apply seals_of_firstn_incl].
         rewrite rel_firstn_chunks. rewrite <- pts_chunks. fold o.
         rewrite (crun_rejects_unit HF j (st_at pts j) rest (length ctj)).
         - cbn [prepend]. rewrite app_nil_r. reflexivity.
@@ -560,12 +600,12 @@ Section SsChunkTamper.
         - rewrite <- Hnj. exact Hnot. }
       split; [apply chunks_prefix; exact Hl0|]. split; [exact Hrun|].
       intros segs Hsegs.
-      pose proof (frun_canon P (open_len P HL) segs (a0, DLen) [] (@nil bytes) [] eq_refl I) as H.
+      pose proof (frun_canon P (lo_open_len _ HL) segs (a0, DLen) [] (@nil bytes) [] eq_refl I) as H.
       rewrite crun_segs_concat, Hsegs, Hrun in H. exact H.
     Qed.
 
     (* the same with the plain reading of "altered": the bytes at the place of unit j differ from it *)
-    Corollary tampered_unit_rejected_neq : prim_laws P -> forge_free -> 0 < limit -> limit <= 65535 ->
+    Corollary tampered_unit_rejected_neq : laws_on honest_seals -> forge_free -> 0 < limit -> limit <= 65535 ->
       forall j nj mj ctj rest, nth_error honest j = Some (nj, mj, ctj) ->
       (length ctj <= length rest)%nat ->
       firstn (length ctj) rest <> ctj ->
@@ -693,6 +733,43 @@ Module TamperExamples.
     - reflexivity.
   Qed.
 
+  (* the restricted laws hold for the ideal opener: it is correct on every unit the honest sender sealed *)
+  Lemma toy_seal_len c k n a m : lenN (toy_seal c k n a m) = lenN m + TAG.
+  Proof. unfold toy_seal, toy_tag. rewrite lenN_app, lenN_put_be. reflexivity. Qed.
+  Example ideal_laws : laws_on Pideal (honest_seals Pideal a0 lim pt0).
+  Proof.
+    constructor.
+    - intros c k n a m. apply toy_seal_len.
+    - exact ideal_open_len_ok.
+    - intros c k n m Hin. vm_compute in Hin.
+      repeat (destruct Hin as [Hin|Hin]; [injection Hin as <- <- <- <-; vm_compute; reflexivity|]). contradiction.
+  Qed.
+  Example honest_seals_nontrivial : length (honest_seals Pideal a0 lim pt0) = 6%nat.
+  Proof. vm_compute. reflexivity. Qed.
+
+  (* ALL hypotheses of tampered_unit_rejected / tampered_unit_rejected_neq hold together (laws_on + forge_free +
+     nonce discipline) for the ideal AEAD on the three-chunk stream: whatever bytes differ from honest unit j at its
+     place are rejected as soon as they are complete, under every segmentation *)
+  Example ideal_tampered_unit_rejected : forall j nj mj ctj rest,
+    nth_error (honest Pideal a0 lim pt0) j = Some (nj, mj, ctj) ->
+    (length ctj <= length rest)%nat -> firstn (length ctj) rest <> ctj ->
+    let w' := prefix_wire Pideal a0 lim pt0 j ++ rest in
+    let o := concat (firstn (Nat.div2 j) (chunks lim pt0)) in
+    prefix o pt0 /\
+    crun Pideal (a0, DLen) w' = Fail o /\
+    forall segs, concat segs = w' ->
+      exists s b items, Framed.run _ _ (body_dec Pideal) (a0, DLen) [] segs [] = (s, b, items, Failed EAead) /\
+                        prefix (concat items) o.
+  Proof.
+    apply (tampered_unit_rejected_neq Pideal a0 lim pt0 0).
+    - reflexivity.
+    - vm_compute. reflexivity.
+    - exact ideal_laws.
+    - exact ideal_forge_free.
+    - reflexivity.
+    - vm_compute. discriminate.
+  Qed.
+
   (* reflection / other session: under another key the ideal opener opens nothing, nothing is released *)
   Example ideal_reflection : forall segs,
     let a_dec := {| au_cipher := 2; au_key := repeat 9 32; au_nonce := inc_init |} in
@@ -742,6 +819,8 @@ Module TamperExamples.
   Proof. vm_compute. reflexivity. Qed.
 End TamperExamples.
 
+Print Assumptions TamperExamples.ideal_laws.
+Print Assumptions TamperExamples.ideal_tampered_unit_rejected.
 Print Assumptions TamperExamples.ideal_forge_free.
 Print Assumptions TamperExamples.ideal_released_is_prefix.
 Print Assumptions TamperExamples.ideal_reflection.
